@@ -166,9 +166,33 @@ static int op_yuvcontent(toks_t *t)
     rgb[(y * w + x) * 3 + 2] = (unsigned char)(((x + y) * 3 + ((r >> 16) & 127)) & 255);
   }
   sf = sfs[sfi % nsf];
+  if (ss >= 100) {
+    /* the same 4:2:2 / 4:4:0 geometry written with doubled sampling factors (luma 2x2, chroma 1x2 resp. 2x1), through the libjpeg API:
+       legal, and something the TurboJPEG compressor never writes */
+    struct jpeg_compress_struct c; my_err_t ce; unsigned long ul = 0; int nsv = ss - 100;
+    ss = nsv == 0 ? TJSAMP_422 : TJSAMP_440; nc = 3;
+    c.err = my_err_init(&ce);
+    jpeg_create_compress(&c);
+    if (setjmp(ce.jb)) { printf("R skip compress-failed %d\n", ce.code); jpeg_destroy_compress(&c); goto done; }
+    jpeg_mem_dest(&c, &jpeg, &ul);
+    c.image_width = (JDIMENSION)w; c.image_height = (JDIMENSION)h; c.input_components = 3; c.in_color_space = JCS_RGB;
+    jpeg_set_defaults(&c); jpeg_set_quality(&c, 90, TRUE);
+    c.comp_info[0].h_samp_factor = 2; c.comp_info[0].v_samp_factor = 2;
+    c.comp_info[1].h_samp_factor = c.comp_info[2].h_samp_factor = nsv == 0 ? 1 : 2;
+    c.comp_info[1].v_samp_factor = c.comp_info[2].v_samp_factor = nsv == 0 ? 2 : 1;
+    jpeg_start_compress(&c, TRUE);
+    for (y = 0; y < h; y++) { JSAMPROW rp = rgb + (size_t)y * w * 3; jpeg_write_scanlines(&c, &rp, 1); }
+    jpeg_finish_compress(&c); jpeg_destroy_compress(&c);
+    jsize = ul;
+  } else {
   tj3Set(hc, TJPARAM_SUBSAMP, ss); tj3Set(hc, TJPARAM_QUALITY, 90);
   if (tj3Compress8(hc, rgb, w, 0, h, TJPF_RGB, &jpeg, &jsize) < 0) { printf("R skip compress-failed\n"); goto done; }
+  }
   if (tj3DecompressHeader(hd, jpeg, jsize) < 0 || tj3SetScalingFactor(hd, sf) < 0) { printf("R skip header\n"); goto done; }
+  if (tj3Get(hd, TJPARAM_SUBSAMP) != ss) {
+    printf("R content subsamp\n"); printf("O fail yuvcontent the header of a JPEG whose sampling factors describe subsampling level %d reports level %d\n", ss, tj3Get(hd, TJPARAM_SUBSAMP));
+    goto done;
+  }
   sw = TJSCALED(w, sf); sh = TJSCALED(h, sf);
   for (i = 0; i < nc; i++) {
     pw[i] = tj3YUVPlaneWidth(i, sw, ss); ph[i] = tj3YUVPlaneHeight(i, sh, ss);
